@@ -137,15 +137,17 @@ def main(argv):
     for pid, cap, mode, faults, prog, small in progs:
         for si, (seed, strat) in enumerate(scheds):
             cid = "%s.%d" % (pid, si)
-            lines.append("%s %d %d %d %s %s %s" % (cid, seed, strat, cap, mode, faults, prog))
-            meta[cid] = (pid, cap, mode, faults, prog, small, seed, strat)
+            # every third schedule runs with a slow consume function (sleeps longer than join()'s polling period)
+            m = mode if (chk.replay or len(mode) > 1 or si % 3 != 2) else mode + "s"
+            lines.append("%s %d %d %d %s %s %s" % (cid, seed, strat, cap, m, faults, prog))
+            meta[cid] = (pid, cap, m, faults, prog, small, seed, strat)
     chk.log("%d programs x %d schedules" % (len(progs), len(scheds)))
     impl_out = chk.run_cases(impl, lines, timeout=900) if impl else {}
     # model: all admissible outcomes of the small programs
     model_sets = {}
     states = trans = 0
     if model:
-        mlines = ["%s %d %s %s %s" % (pid, cap, mode, faults, prog) for pid, cap, mode, faults, prog, small in progs if small]
+        mlines = ["%s %d %s %s %s" % (pid, cap, mode[0], faults, prog) for pid, cap, mode, faults, prog, small in progs if small]
         mo = chk.run_cases(model, mlines, timeout=1800)
         for pid, l in mo.items():
             if "outcomes=" not in l:
@@ -219,7 +221,8 @@ def main(argv):
                        "18 fixed boundary programs (join racing a slower producer, refused launch + recovery signal, "
                        "capacity 1) plus seeded random mixes of execute / join / signal_push_event over 2-5 threads, "
                        "capacities 1-8, inline and asynchronous executors, fault lists of length 0-3; strategies: uniform "
-                       "random, round-robin with random pre-emptions, PCT depth 3 (twice); distinct non-trivial = distinct "
+                       "random, round-robin with random pre-emptions, PCT depth 3 (twice); every third schedule with a consume "
+                       "function that sleeps longer than join()'s polling period; distinct non-trivial = distinct "
                        "(program, observed outcome) pairs; small programs are additionally explored exhaustively in the "
                        "extracted model and every implementation outcome must be in the model's outcome set")
     ids = [l.split()[0] for l in lines]
